@@ -737,6 +737,8 @@ class BlockNormalizer:
                     repl = self._fold_loop(out, i, s, gens, inner)
                     if repl is None:
                         repl = self._fold_running_extreme(out, i, s, gens, inner)
+                    if repl is None:
+                        repl = self._fold_any_all(out, i, s, gens, inner)
                     if repl is not None:
                         out = repl
                         continue
@@ -1431,6 +1433,67 @@ def _tailify(block):
     return out
 
 
+def _loopify(block):
+    """A helper whose returns sit inside one top-level loop (plus the tail after it): move the tail into the loop's `else`
+    clause, so that `return X` inside the loop can become `<use X>; break` at the call site.  Returns the new block or None."""
+    loops = [i for i, s in enumerate(block) if isinstance(s, (ast.While, ast.For)) and any(isinstance(x, ast.Return) for x in ast.walk(s))]
+    if len(loops) != 1:
+        return None
+    i = loops[0]
+    lp = block[i]
+    if lp.orelse or any(isinstance(x, ast.Return) for st in block[:i] for x in ast.walk(st)):
+        return None
+
+    def own_level(stmts):
+        """statements of the loop body outside nested loops / defs"""
+        for st in stmts:
+            yield st
+            if isinstance(st, (ast.If, ast.With)):
+                yield from own_level(st.body)
+                yield from own_level(getattr(st, "orelse", []) or [])
+            elif isinstance(st, ast.Try):
+                return
+    lvl = list(own_level(lp.body))
+    if any(isinstance(st, (ast.Break, ast.Try)) for st in lvl):
+        return None
+    rets_in_loop = [x for x in ast.walk(lp) if isinstance(x, ast.Return)]
+    if not all(any(x is st for st in lvl) for x in rets_in_loop):
+        return None  # a return inside a nested loop
+    tail = _tailify(block[i + 1:]) if block[i + 1:] else []
+    if tail is None:
+        return None
+    if not _always_returns(tail):
+        tail = list(tail) + [ast.Return(value=ast.Constant(value=None))]
+    new_loop = copy.copy(lp)
+    new_loop.orelse = tail
+    new_loop._loopified = True
+    return list(block[:i]) + [new_loop]
+
+
+def _replace_all_returns(block, make_stmt, in_loop=False):
+    """Every `return X` of the block (nested defs excluded) becomes make_stmt(X), followed by `break` inside the loop body."""
+    out = []
+    for s in block:
+        if isinstance(s, ast.Return):
+            r = make_stmt(s.value if s.value is not None else ast.Constant(value=None))
+            if r is not None:
+                out.append(ast.copy_location(r, s))
+            if in_loop:
+                out.append(ast.copy_location(ast.Break(), s))
+            continue
+        if isinstance(s, (ast.FunctionDef, ast.ClassDef)):
+            out.append(s)
+            continue
+        s2 = copy.copy(s)
+        for fld in ("body", "orelse", "finalbody"):
+            b = getattr(s2, fld, None)
+            if isinstance(b, list) and b and isinstance(b[0], ast.stmt):
+                loop_body = isinstance(s2, (ast.While, ast.For)) and fld == "body"
+                setattr(s2, fld, _replace_all_returns(b, make_stmt, in_loop=(in_loop and not isinstance(s2, (ast.While, ast.For))) or loop_body) or [ast.copy_location(ast.Pass(), s)])
+        out.append(s2)
+    return out
+
+
 def _replace_tail_returns(block, make_stmt):
     out = []
     for s in block:
@@ -1455,6 +1518,7 @@ class Inliner:
         self.changed = False
         self.counter = 0
         self.helpers = {}  # key -> (FunctionDef, kind, class name | None)
+        self.loopified = set()  # helpers whose body was restructured by _loopify (statement-position inlining only)
         self.props = {}  # (class name, property name) -> (FunctionDef, self parameter, returned expression): private pure properties
         self._collect()
 
@@ -1493,7 +1557,10 @@ class Inliner:
         if len(rets) > 1 or (rets and rets[0] is not body[-1]):
             tb = _tailify(body)
             if tb is None:
-                return
+                tb = _loopify(body)
+                if tb is None:
+                    return
+                self.loopified.add((cls.name if cls is not None else None, name))
             body = tb
         # recursion
         for x in ast.walk(fn):
@@ -1532,6 +1599,11 @@ class Inliner:
             h = self.helpers.get((None, f.id))
             return h, 0
         if isinstance(f, ast.Attribute) and isinstance(f.value, ast.Name):
+            # a static helper of another class of this module, called through the class name
+            if (cls is None or f.value.id not in (selfn, cls.name, "cls")) and (f.value.id, f.attr) in self.helpers and self.helpers[(f.value.id, f.attr)][1] == "static":
+                h = self.helpers[(f.value.id, f.attr)]
+                if not self._overridden_below(h, f.attr):
+                    return h, 0
             if cls is not None and f.value.id in (selfn, cls.name, "cls"):
                 h = self.helpers.get((cls.name, f.attr))
                 # inherited helper: defined in a base class of the same module and not overridden on the way
@@ -1667,7 +1739,18 @@ class Inliner:
                     mapping, prelude = bound
                     inst = self._instantiate(fn, body, mapping, s)
                     n_rets = sum(1 for st in inst for x in ast.walk(st) if isinstance(x, ast.Return))
-                    if n_rets > 1 or (n_rets == 1 and not isinstance(inst[-1], ast.Return)):
+                    key_ = next((k for k, v in self.helpers.items() if v[0] is fn), None)
+                    if key_ in self.loopified:
+                        if isinstance(s, ast.Expr):
+                            mk = lambda e: (None if isinstance(e, (ast.Constant, ast.Name)) else ast.Expr(value=e))
+                        elif isinstance(s, ast.Assign):
+                            mk = lambda e: ast.Assign(targets=copy.deepcopy(s.targets), value=e)
+                        elif isinstance(s, ast.AnnAssign):
+                            mk = lambda e: ast.Assign(targets=[copy.deepcopy(s.target)], value=e)
+                        else:
+                            mk = lambda e: ast.Return(value=e)
+                        res = list(prelude) + _replace_all_returns(inst, mk)
+                    elif n_rets > 1 or (n_rets == 1 and not isinstance(inst[-1], ast.Return)):
                         # multi-return helper in tail form: every `return e` becomes the statement the call site performs with e
                         if isinstance(s, ast.Expr):
                             mk = lambda e: (None if isinstance(e, ast.Constant) else ast.Expr(value=e))
@@ -1748,6 +1831,8 @@ class Inliner:
                 self.generic_visit(node)
                 h, skip = outer._lookup(node, cls, selfn)
                 if h is None or h[0] is cur_fn:
+                    return node
+                if next((k for k, v in outer.helpers.items() if v[0] is h[0]), None) in outer.loopified:
                     return node
                 fn, kind, body = h
                 if not (len(body) == 1 and isinstance(body[0], ast.Return) and body[0].value is not None):
@@ -2108,6 +2193,92 @@ def expand_kwargs_dicts(tree: ast.Module) -> bool:
     return changed
 
 
+def unfold_reduce(tree: ast.Module) -> bool:
+    """N23: `x = reduce(lambda acc, item: E, ITER, INIT)` (also as a return value)  ->  `acc = INIT; for item in ITER: acc = E;
+    x = acc`, for simple ITER / INIT expressions (evaluated once, no effects to reorder)."""
+    changed = False
+    counter = [0]
+
+    def do_block(stmts):
+        nonlocal changed
+        out = []
+        for s in stmts:
+            for fld in ("body", "orelse", "finalbody"):
+                b = getattr(s, fld, None)
+                if isinstance(b, list) and b and isinstance(b[0], ast.stmt):
+                    setattr(s, fld, do_block(b))
+            if isinstance(s, ast.Try):
+                for h in s.handlers:
+                    h.body = do_block(h.body)
+            v = getattr(s, "value", None) if isinstance(s, (ast.Assign, ast.AnnAssign, ast.Return)) else None
+            if (isinstance(v, ast.Call) and _u(v.func) in ("reduce", "functools.reduce") and len(v.args) == 3 and not v.keywords and isinstance(v.args[0], ast.Lambda)
+                    and len(v.args[0].args.args) == 2 and not v.args[0].args.defaults and not v.args[0].args.vararg and not v.args[0].args.kwarg
+                    and _is_simple_expr(v.args[1]) and _is_simple_expr(v.args[2])):
+                lam = v.args[0]
+                acc_p, item_p = lam.args.args[0].arg, lam.args.args[1].arg
+                counter[0] += 1
+                acc = f"__reduce_{acc_p}_{counter[0]}"
+                item = f"__reduce_{item_p}_{counter[0]}"
+                body = _subst(lam.body, {acc_p: ast.Name(id=acc, ctx=ast.Load()), item_p: ast.Name(id=item, ctx=ast.Load())})
+                init = ast.Assign(targets=[ast.Name(id=acc, ctx=ast.Store())], value=v.args[2])
+                loop = ast.For(target=ast.Name(id=item, ctx=ast.Store()), iter=v.args[1], body=[ast.Assign(targets=[ast.Name(id=acc, ctx=ast.Store())], value=body)], orelse=[])
+                s.value = ast.Name(id=acc, ctx=ast.Load())
+                for x in (init, loop):
+                    ast.copy_location(x, s)
+                    ast.fix_missing_locations(x)
+                ast.fix_missing_locations(s)
+                out.extend([init, loop, s])
+                changed = True
+                continue
+            out.append(s)
+        return out
+
+    for f in [n for n in ast.walk(tree) if isinstance(n, (ast.FunctionDef, ast.AsyncFunctionDef))]:
+        f.body = do_block(f.body)
+    return changed
+
+
+def unnest_self_calls(tree: ast.Module) -> bool:
+    """N24: `x = self.f(self.g(a), b)`  ->  `__t = self.g(a); x = self.f(__t, b)` when the inner call is the first call the
+    statement evaluates (and is evaluated exactly once): a pipeline written as nested calls becomes a sequence of stages."""
+    changed = False
+    counter = [0]
+
+    def do_block(stmts, selfn):
+        nonlocal changed
+        out = []
+        for s in stmts:
+            for fld in ("body", "orelse", "finalbody"):
+                b = getattr(s, fld, None)
+                if isinstance(b, list) and b and isinstance(b[0], ast.stmt):
+                    setattr(s, fld, do_block(b, selfn))
+            if isinstance(s, ast.Try):
+                for h in s.handlers:
+                    h.body = do_block(h.body, selfn)
+            v = getattr(s, "value", None) if isinstance(s, (ast.Assign, ast.AnnAssign, ast.Return, ast.Expr)) else None
+            if selfn and isinstance(v, ast.Call) and isinstance(v.func, ast.Attribute) and isinstance(v.func.value, ast.Name) and v.func.value.id == selfn:
+                inner = next((a for a in v.args if isinstance(a, ast.Call) and isinstance(a.func, ast.Attribute) and isinstance(a.func.value, ast.Name) and a.func.value.id == selfn), None)
+                if inner is not None and _evaluated_exactly_once(v, inner) and not _calls_before_node(v, inner):
+                    counter[0] += 1
+                    tmp = f"__stage_{inner.func.attr.strip('_')}_{counter[0]}"
+                    pre = ast.Assign(targets=[ast.Name(id=tmp, ctx=ast.Store())], value=inner)
+                    ast.copy_location(pre, s)
+                    v.args[v.args.index(inner)] = ast.copy_location(ast.Name(id=tmp, ctx=ast.Load()), inner)
+                    ast.fix_missing_locations(pre)
+                    out.extend(do_block([pre], selfn))
+                    out.append(s)
+                    changed = True
+                    continue
+            out.append(s)
+        return out
+
+    for c in [n for n in ast.walk(tree) if isinstance(n, ast.ClassDef)]:
+        for f in c.body:
+            if isinstance(f, ast.FunctionDef) and f.args.args and not any(_u(d) in ("staticmethod", "classmethod") for d in f.decorator_list):
+                f.body = do_block(f.body, f.args.args[0].arg)
+    return changed
+
+
 def normalize_module(tree: ast.Module, max_rounds: int = 6, returns_arg: dict | None = None, foreign_refs: set | None = None) -> ast.Module:
     for _ in range(max_rounds):
         bn = BlockNormalizer()
@@ -2119,6 +2290,10 @@ def normalize_module(tree: ast.Module, max_rounds: int = 6, returns_arg: dict | 
         if strip_truth_casts(tree):
             bn.changed = True
         if expand_kwargs_dicts(tree):
+            bn.changed = True
+        if unfold_reduce(tree):
+            bn.changed = True
+        if unnest_self_calls(tree):
             bn.changed = True
         if separate_returned_argument(tree, returns_arg or {}):
             bn.changed = True
